@@ -71,7 +71,10 @@ impl AsyncFileSystem for AsyncPhysicalFS {
             self.get_path(path)
                 .read_dir()
                 .await?
-                .map(|entry| entry.unwrap().file_name().into_string().unwrap()),
+                // entries that cannot be read are skipped, names that are not valid UTF-8 are
+                // reported lossily (they cannot be addressed through a str path anyway)
+                .filter_map(|entry| futures::future::ready(entry.ok()))
+                .map(|entry| entry.file_name().to_string_lossy().into_owned()),
         );
         Ok(entries)
     }
@@ -82,11 +85,13 @@ impl AsyncFileSystem for AsyncPhysicalFS {
             Ok(()) => Ok(()),
             Err(e) => match e.kind() {
                 ErrorKind::AlreadyExists => {
-                    let metadata = async_std::fs::metadata(&fs_path).await.unwrap();
-                    if metadata.is_dir() {
-                        return Err(VfsError::from(VfsErrorKind::DirectoryExists));
+                    // (the metadata of e.g. a dangling symlink cannot be read: it is not a directory)
+                    match async_std::fs::metadata(&fs_path).await {
+                        Ok(metadata) if metadata.is_dir() => {
+                            Err(VfsError::from(VfsErrorKind::DirectoryExists))
+                        }
+                        _ => Err(VfsError::from(VfsErrorKind::FileExists)),
                     }
-                    Err(VfsError::from(VfsErrorKind::FileExists))
                 }
                 _ => Err(e.into()),
             },
